@@ -924,7 +924,7 @@ theorem attach_mem (l : List Mdl) (m m' : Mdl) (h : m' ∈ l) : m' ∈ attach l 
 /-- … and never reorders or alters: the old list is the prefix of the new one, the new model is last -/
 theorem attach_prefix (l : List Mdl) (m : Mdl) :
     (attach l m).take l.length = l ∧ (attach l m).getLast? = some m ∧ (attach l m).length = l.length + 1 := by
-  simp [attach]
+  simp [Coupling.attach]
 
 theorem attach_count_other (l : List Mdl) (m m' : Mdl) (h : m ≠ m') : (attach l m).count m' = l.count m' := by
   simp [Coupling.attach, List.count_append, List.count_singleton, h]
